@@ -9,7 +9,7 @@ this module consumes exactly that JSON (after ``json.loads``):
               neg abs not (a) | add sub mul div pow floordiv mod (a, b) | min max and or (args) |
               cmp(ops, args) | ite(c, a, b) | call(name, args) | fn(name, args)
   statement   {"k": "assign", "name", "e"} | {"k": "ret", "e"} | {"k": "if", "e", "body", "orelse"} |
-              {"k": "aug", "name", "op", "e"} | {"k": "while", "e", "body"} | {"k": "for", "name", "e", "body"}
+              {"k": "chain", "names", "e"} | {"k": "aug", "name", "op", "e"} | {"k": "while", "e", "body"} | {"k": "for", "name", "e", "body"}
   function    {"k": "fn", "params": [...], "body": [...]}
 
 Rendering (spec -> Python source):
@@ -150,6 +150,8 @@ def body_lines(body: list, style: Style = PLAIN, indent: int = 1, elif_ok: bool 
             out.append(f"{pad}{s['name']} = {_strip(expr_src(s['e'], style))}")
         elif k == "ret":
             out.append(f"{pad}return {_strip(expr_src(s['e'], style))}")
+        elif k == "chain":
+            out.append(f"{pad}{' = '.join(s['names'])} = {_strip(expr_src(s['e'], style))}")
         elif k == "aug":
             out.append(f"{pad}{s['name']} {BIN_SYM[s['op']]}= {_strip(expr_src(s['e'], style))}")
         elif k == "while":
